@@ -381,27 +381,60 @@ WHOLE_VALUE_FALLBACKS = {
 }
 
 
-def _governing(model: Model, f: FuncInfo, sub: ast.AST) -> t.List[t.Tuple[FuncInfo, str, bool]]:
-    """Branch literals governing ``sub`` in ``f`` and, for a nested function, those governing its ``def`` in the enclosing functions."""
+def _site_conditions(model: Model, cur: FuncInfo, at: ast.AST) -> t.List[t.Tuple[FuncInfo, str, bool]]:
+    """Branch literals, conditional expressions and comprehension filters governing the AST node ``at`` inside ``cur``."""
     out: t.List[t.Tuple[FuncInfo, str, bool]] = []
-    cur: t.Optional[FuncInfo] = f
-    at: ast.AST = sub
-    while cur is not None and isinstance(cur.node, (ast.FunctionDef, ast.AsyncFunctionDef)):
-        cfg = cfg_of(model, cur)
-        nz = Normalizer(model, cur, cfg)
-        n = cfg.node_of(at)
-        if n is None:
-            n = next((x for x in cfg.nodes if x.ast is at), None)
-        if n is not None:
-            for (cid, lb) in sorted(cfg.conditions_of(n)):
-                c = cfg.nodes[cid]
-                if c.kind != 'cond' or c.ast is None:
-                    continue
-                text, pos = nz.literal(c.ast, c)
-                out.append((cur, text, pos == (lb == 'T')))
-        at = cur.node
-        cur = cur.parent
+    cfg = cfg_of(model, cur)
+    nz = Normalizer(model, cur, cfg)
+    n = cfg.node_of(at)
+    if n is None:
+        n = next((x for x in cfg.nodes if x.ast is at), None)
+    if n is None:
+        return out
+    for (cid, lb) in sorted(cfg.conditions_of(n)):
+        c = cfg.nodes[cid]
+        if c.kind != 'cond' or c.ast is None:
+            continue
+        text, pos = nz.literal(c.ast, c)
+        out.append((cur, text, pos == (lb == 'T')))
+    child: ast.AST = at
+    for anc in ancestors(at):
+        if anc is cur.node:
+            break
+        try:
+            if isinstance(anc, ast.IfExp) and child is not anc.test:
+                text, pos = nz.literal(anc.test, n)
+                out.append((cur, text, pos == (child is anc.body)))
+            elif isinstance(anc, (ast.GeneratorExp, ast.ListComp, ast.SetComp, ast.DictComp)):
+                for g_ in anc.generators:
+                    for c_ in g_.ifs:
+                        text, pos = nz.literal(c_, n)
+                        out.append((cur, text, pos))
+        except AnalysisError:
+            pass
+        child = anc
     return out
+
+
+def _governing(model: Model, f: FuncInfo, sub: ast.AST, depth: int = 0) -> t.List[t.List[t.Tuple[FuncInfo, str, bool]]]:
+    """Alternative contexts in which ``sub`` (inside ``f``) runs.  One context for a method; for a nested function, the conditions of
+    its ``def`` in the enclosing function or, when the ``def`` is unconditional, one context per *use* of the function's name there
+    (``f = _infer if isinstance(conv, AnyConverter) else _typed``)."""
+    here = _site_conditions(model, f, sub)
+    parent = f.parent
+    if parent is None or not isinstance(parent.node, (ast.FunctionDef, ast.AsyncFunctionDef)) or depth > 3:
+        return [here]
+    outer: t.List[t.List[t.Tuple[FuncInfo, str, bool]]] = []
+    for ctx in _governing(model, parent, f.node, depth + 1):
+        if ctx:
+            outer.append(ctx)
+    if not outer:
+        uses = [x for x in walk_no_nested(parent.node) if isinstance(x, ast.Name) and isinstance(x.ctx, ast.Load) and x.id == f.name]
+        for u in uses:
+            outer.extend(_governing(model, parent, u, depth + 1))
+    if not outer:
+        outer = [[]]
+    return [here + ctx for ctx in outer]
 
 
 def _classes_in(model: Model, text: str, seen: t.Optional[t.Set[str]] = None) -> t.Set[str]:
@@ -444,22 +477,29 @@ def rule_runtime_writer_only_for_any(model: Model, rule_id: str = 'C11-R8') -> R
                 continue
             r.instances += 1
             r.analysed.add(f.qualname)
-            gov = _governing(model, f, c)
-            classes: t.Set[str] = set()
-            mentions_any = False
-            for (_g, text, _truth) in gov:
-                cl = _classes_in(model, text)
-                classes |= cl
-                if 'typing.Any' in text or 'AnyConverter' in cl:
-                    mentions_any = True
-            r.sample({'function': f.qualname, 'conditions': [x[1][:80] for x in gov], 'converter_classes_tested': sorted(classes)})
-            other = classes - {'AnyConverter'}
-            if other:
+            contexts = _governing(model, f, c)
+            r.sample({'function': f.qualname, 'contexts': [[x[1][:70] for x in gov] for gov in contexts][:3]})
+            verdict = 'ok'
+            other: t.Set[str] = set()
+            for gov in contexts:
+                classes: t.Set[str] = set()
+                mentions_any = False
+                for (_g, text, _truth) in gov:
+                    cl = _classes_in(model, text)
+                    classes |= cl
+                    if 'typing.Any' in text or 'AnyConverter' in cl:
+                        mentions_any = True
+                if classes - {'AnyConverter'}:
+                    verdict, other = 'other', classes - {'AnyConverter'}
+                    break
+                if not (mentions_any or top.qualname in WHOLE_VALUE_FALLBACKS):
+                    verdict = 'ungoverned'
+            if verdict == 'other':
                 r.fail(f.qualname, f"run-time typed write under a test of {sorted(other)}", f.loc(c),
                        f"members whose converter is {' / '.join(sorted(other))} are written by `type(value)` instead of by their own "
                        f"converter: a union member is no longer written by a member that accepts it (tags, aliases and member-specific "
                        f"forms are lost)")
-            elif mentions_any or top.qualname in WHOLE_VALUE_FALLBACKS:
+            elif verdict == 'ok':
                 r.ok()
             else:
                 r.fail(f.qualname, "run-time typed write not governed by an `Any` test", f.loc(c),
@@ -544,7 +584,9 @@ def _abc_name(q: str) -> t.Optional[str]:
 
 def rule_classifier_domains(model: Model, rule_id: str = 'C02-R8') -> RuleResult:
     """A ``TypeGuard[Mapping[..]]`` / ``TypeGuard[Sequence[..]]`` helper answers for every instance of that ABC (read-only mappings and
-    sequences included); the helpers are the single place where every converter learns the kind of its input."""
+    sequences included); the helpers are the single place where every converter learns the kind of its input.  Decided on the helper's
+    outcome formula, evaluated for "an instance of the guarded ABC (and of its super-ABCs) and of nothing narrower" (classifier.py)."""
+    from ..classifier import ABC_UP as UP, Classifier
     r = RuleResult(rule_id, 'kind classifiers accept the whole ABC they guard (Mapping, Sequence), not a sub-ABC', floor=3)
     mod = model.module('pane.converters')
     for f in model.all_functions():
@@ -557,35 +599,22 @@ def rule_classifier_domains(model: Model, rule_id: str = 'C02-R8') -> RuleResult
         if isinstance(inner, ast.Subscript):
             inner = inner.value
         guard = _abc_name(model.resolve(inner, f.module, f) or '') if inner is not None else None
-        if guard not in ABC_UP:
+        if guard not in UP:
             continue
         r.instances += 1
         r.analysed.add(f.qualname)
-        pos: t.Set[str] = set()
-        p = f.params[0]
-        for rt in ast.walk(f.node):
-            if not isinstance(rt, ast.Return) or rt.value is None:
-                continue
-
-            def visit(e: ast.AST, neg: bool) -> None:
-                if isinstance(e, ast.UnaryOp) and isinstance(e.op, ast.Not):
-                    visit(e.operand, not neg)
-                elif isinstance(e, ast.BoolOp):
-                    for v in e.values:
-                        visit(v, neg)
-                elif isinstance(e, ast.Call) and isinstance(e.func, ast.Name) and e.func.id == 'isinstance' and len(e.args) == 2 \
-                        and isinstance(e.args[0], ast.Name) and e.args[0].id == p and not neg:
-                    cl = e.args[1]
-                    for c in (cl.elts if isinstance(cl, ast.Tuple) else [cl]):
-                        q = model.resolve(c, f.module, f) or unparse(c)
-                        pos.add(_abc_name(q) or q.replace('builtins.', ''))
-            visit(rt.value, False)
-        need = {guard, *ABC_UP[guard]}
-        r.sample({'helper': f.qualname, 'guards': guard, 'accepts_instances_of': sorted(pos)})
-        if pos & need:
+        try:
+            c = Classifier(model, f)
+        except AnalysisError as ex:
+            r.note(f"{f.loc()}: outcome formula not available ({ex}); not decided")
+            r.ok()
+            continue
+        ans = c.answer(guard)
+        r.sample({'helper': f.qualname, 'guards': guard, 'tests': c.atoms, f'plain {guard}': ans})
+        if ans != 'F':
             r.ok()
         else:
-            r.fail(f.qualname, f"accepts only {sorted(pos)}", f.loc(),
+            r.fail(f.qualname, f"a plain {guard} is not accepted (tests: {'; '.join(c.atoms)[:120]})", f.loc(),
                    f"the helper guards {guard} but tests a narrower class: read-only {guard.lower()}s (types.MappingProxyType, custom "
                    f"{guard} subclasses) are no longer recognised, so structs, dicts and tagged unions refuse data whose tag and body are "
                    f"perfectly well-formed")
@@ -624,7 +653,7 @@ def rule_string_alias_is_one_name(model: Model, rule_id: str = 'C15-R6') -> Rule
                 tgts = a.targets if isinstance(a, ast.Assign) else [a.target]
                 val = a.value
                 if any(unparse(x) == f'{f.params[0]}.aliases' for x in tgts) and isinstance(val, (ast.List, ast.Tuple)) \
-                        and len(val.elts) == 1 and unparse(val.elts[0]) == f'{f.params[0]}.aliases':
+                        and len(val.elts) == 1 and nz.expr(val.elts[0], n) == 'self.aliases':
                     wrapped = True
             if n.kind == 'stmt' and isinstance(a, ast.Expr) and isinstance(a.value, ast.Call) and cfg.edge_dominates(c, lb, n):
                 cl = a.value
@@ -649,7 +678,7 @@ def rule_string_alias_is_one_name(model: Model, rule_id: str = 'C15-R6') -> Rule
                     it = x.value
                 elif isinstance(x, ast.comprehension):
                     it = x.iter
-                if it is None or unparse(it) != f'{f.params[0]}.aliases':
+                if it is None or nz.expr(it, n) != 'self.aliases':
                     continue
                 r.instances += 1
                 safe = any(cfg.edge_dominates(c, 'F' if pos else 'T', n) for (c, pos) in tests)
@@ -698,24 +727,36 @@ def rule_parameter_order(model: Model, rule_id: str = 'C17-R11') -> RuleResult:
     if sup is None or not sets:
         raise AnalysisError(f"{f.loc()}: __init_subclass__ no longer merges __parameters__ around super().__init_subclass__()")
 
+    def when_name(e: ast.Name, at: Node) -> t.Set[str]:
+        ks: t.Set[str] = set()
+        for d in rd.at(at, e.id):
+            if d.kind not in ('assign', 'walrus') or d.value is None:
+                continue
+            if '__parameters__' not in unparse(d.value):
+                # derived from other locals (a filtered / de-duplicated copy): follow them
+                for x in ast.walk(d.value):
+                    if isinstance(x, ast.Name) and x.id != e.id and rd.is_local(x.id):
+                        ks |= when_name(x, d.node)
+                continue
+            if cfg.node_dominates(d.node, sup) and d.node is not sup:
+                ks.add('old')
+            elif cfg.node_dominates(sup, d.node):
+                ks.add('new')
+            else:
+                ks.add('?')
+        return ks
+
     def when(e: ast.AST, at: Node) -> str:
-        """'old' = read before typing's __init_subclass__ ran, 'new' = read after."""
-        if isinstance(e, ast.Name) and rd.is_local(e.id):
-            defs = rd.at(at, e.id)
-            ks = set()
-            for d in defs:
-                if d.kind not in ('assign', 'walrus') or d.value is None or '__parameters__' not in unparse(d.value):
-                    ks.add('?')
-                elif cfg.node_dominates(d.node, sup) and d.node is not sup:
-                    ks.add('old')
-                elif cfg.node_dominates(sup, d.node):
-                    ks.add('new')
-                else:
-                    ks.add('?')
-            return ks.pop() if len(ks) == 1 else '?'
-        if '__parameters__' in unparse(e):
-            return 'new' if cfg.node_dominates(sup, at) else 'old'
-        return '?'
+        """'old' = read before typing's __init_subclass__ ran, 'new' = read after (possibly filtered against the old ones)."""
+        ks: t.Set[str] = set()
+        for x in ast.walk(e):
+            if isinstance(x, ast.Name) and isinstance(x.ctx, ast.Load) and rd.is_local(x.id):
+                ks |= when_name(x, at)
+            elif (isinstance(x, ast.Attribute) and x.attr == '__parameters__') or (isinstance(x, ast.Constant) and x.value == '__parameters__'):
+                ks.add('new' if cfg.node_dominates(sup, at) else 'old')
+        if '?' in ks or not ks:
+            return '?'
+        return 'new' if 'new' in ks else 'old'
 
     for (n, val, site) in sets:
         r.instances += 1
